@@ -304,10 +304,22 @@ func (R *Repository) updateCRL(identifier string) error {
 	if entry != nil {
 		R.logger.Debug("updating crl from " + entry.CRLLoader.GetDescription())
 		if R.isEntryLoaded(entry) == false {
-			return R.loadCRL(entry, entry.Chains)
+			return R.loadNotYetLoadedEntry(entry)
 		} else {
 			return R.updateCrlEntry(entry, nil)
 		}
+	}
+	return nil
+}
+
+// loadNotYetLoadedEntry loads an entry which was added but never loaded (background fetch mode or a failed first download).
+// The entry is written to, so this needs the write lock of the entry like loadActively does.
+func (R *Repository) loadNotYetLoadedEntry(entry *Entry) error {
+	entry.entryLock.Lock()
+	defer entry.entryLock.Unlock()
+	//check again after getting write lock if entry is still not loaded
+	if entry.Loaded == false {
+		return R.loadCRL(entry, entry.Chains)
 	}
 	return nil
 }
